@@ -307,6 +307,6 @@ func runC04(c *Ctx) {
 		}
 	}
 	c.WriteCoqSharded("cases_C04", "From Verif Require Import Base Chains RunChains.\n", "chcase", items, "chains_mismatches", 100)
-	c.Rep.Cases = len(cases)
-	c.Rep.Rule = "real CRLs under signature_validation_mode verify + crl_cdp_strict: signer {issuer CA, the client's own certificate (own name / CA's name), unrelated key, sibling CA with the same name, configured trusted signer, unconfigured stranger, root key, CA without cRLSign} x AKI {keyId, absent, issuer+serial, both}; the client certificate's key with key usage {absent, digitalSignature, digitalSignature+cRLSign} in a normal chain and as a directly trusted chain of one, signing in its own or the CA's name; all ten supported algorithms, RSA-PSS and Ed25519; ~17 neighbouring algorithm identifiers per supported algorithm (last arc with a digit appended, dropped, extended by an arc, bit-flipped, +1, +16, decimal prefix) declared outer-only on an authentic CRL and inner+outer on a CRL the CA signs; every 4th (thorough: every) byte of a valid CRL with bit 0 and bit 7 flipped; observable: does the CRL come into force (an unlisted certificate is accepted under strict) and does it revoke the listed one"
+	c.Rep.Cases = len(cases) + c04ChainIsolationStage(c)
+	c.Rep.Rule = "real CRLs under signature_validation_mode verify + crl_cdp_strict: signer {issuer CA, the client's own certificate (own name / CA's name), unrelated key, sibling CA with the same name, configured trusted signer, unconfigured stranger, root key, CA without cRLSign} x AKI {keyId, absent, issuer+serial, both}; the client certificate's key with key usage {absent, digitalSignature, digitalSignature+cRLSign} in a normal chain and as a directly trusted chain of one, signing in its own or the CA's name; all ten supported algorithms, RSA-PSS and Ed25519; ~17 neighbouring algorithm identifiers per supported algorithm (last arc with a digit appended, dropped, extended by an arc, bit-flipped, +1, +16, decimal prefix) declared outer-only on an authentic CRL and inner+outer on a CRL the CA signs; every 4th (thorough: every) byte of a valid CRL with bit 0 and bit 7 flipped; plus a history over two connections (fetch_background, 0/1/2/3/5/6 trusted signers configured): a pending CDP of client 1, then client 2 of a same-named CA with another key, then the first CDP serves a list signed by that other CA — it must never come into force; observable: does the CRL come into force (an unlisted certificate is accepted under strict) and does it revoke the listed one"
 }
